@@ -865,6 +865,8 @@ class CppMachine:
         self.steps += 1
         if self.steps > 2000000:
             raise Unsupported('too many steps')
+        if (self.steps & 255) == 0:
+            _check_budget(self)
         k = s.get('k')
         if k == 'compound':
             sts = [st]
@@ -2020,11 +2022,21 @@ def _unfold_chain(self, st, T, theta, kind):
     return S, theta
 
 
+def _check_budget(m):
+    """a rule may give its machine a deadline (m.deadline, seconds since the epoch): a broken routine can make the fact closure run away,
+    and a refusal after a bounded time is the honest answer then"""
+    import time as _time
+    dl = getattr(m, 'deadline', None)
+    if dl is not None and _time.time() > dl:
+        raise Unsupported('time budget of the rule exhausted (the fact closure does not settle)')
+
+
 def infer_bits(self, st):
     """carry / borrow bits forced by their own defining identity once other bits are known on the path:  v = T - W k  with
     max(T) < W gives k = 0 (min(T) >= W gives k = 1);  v = T + W b  with min(T) >= 0 gives b = 0"""
     changed = True
     while changed:
+        _check_budget(self)
         changed = False
         sub = {a: ZPoly.const(v) for a, v in st.p.bits.items()}
         for a, at in self.world.atoms.items():
@@ -2388,6 +2400,7 @@ def path_normal(m, st, p):
 def _path_normal(m, st, p):
     """p expanded through the defining identities with the path facts applied - including the facts about DEFINED bits: a bit b with
     b == E(older atoms) that the path fixes to v contributes the linear relation E == v, used to eliminate one atom of E"""
+    _check_budget(m)
     sub = {a: ZPoly.const(v) for a, v in st.p.bits.items()}
     # equalities established by comparisons on the path: a sum of non-negative atoms with positive coefficients that equals a small
     # constant fixes every atom whose coefficient exceeds the constant to zero, and a single remaining atom to the quotient
@@ -2658,6 +2671,8 @@ def rule_inverse_step(ctx, cfg, prog, rule='R-WORDALG/c++'):
         try:
             nw = nbytes // (wordbits // 8)
             m = CppMachine(prog, wordbits, {'RES': 0, 'A': nw})
+            import time as _time
+            m.deadline = _time.time() + 240        # today's tree takes a few seconds per instantiation
             m.big_summaries = True
             m.topdown_splits = True
             m.infer = True
